@@ -17,10 +17,10 @@ MCParams == AllModel \o <<"offset">>
 MCCallParams == {AllModel[i] : i \in ModelSel} \cup {"offset"}
 MCObsParams == {"offset"}
 MCDerived == <<"logg", "mu">>
-FullSetting == [planet_radius |-> [fit |-> TRUE,  mode |-> "linear", lo |-> -1,  hi |-> 1,  raw |-> FALSE, slo |-> -1,  shi |-> 1],
-                T             |-> [fit |-> FALSE, mode |-> "linear", lo |-> 2,   hi |-> 4,  raw |-> FALSE, slo |-> 2,   shi |-> 4],
-                H2O           |-> [fit |-> FALSE, mode |-> "log",    lo |-> -12, hi |-> -1, raw |-> FALSE, slo |-> -12, shi |-> -1],
-                offset        |-> [fit |-> FALSE, mode |-> "linear", lo |-> -3,  hi |-> 0,  raw |-> FALSE, slo |-> -3,  shi |-> 0]]
+FullSetting == [planet_radius |-> [fit |-> TRUE,  mode |-> "linear", lo |-> -1,  hi |-> 1,  raw |-> FALSE, slo |-> -1,  shi |-> 1, sfit |-> TRUE],
+                T             |-> [fit |-> FALSE, mode |-> "linear", lo |-> 2,   hi |-> 4,  raw |-> FALSE, slo |-> 2,   shi |-> 4, sfit |-> FALSE],
+                H2O           |-> [fit |-> FALSE, mode |-> "log",    lo |-> -12, hi |-> -1, raw |-> FALSE, slo |-> -12, shi |-> -1, sfit |-> FALSE],
+                offset        |-> [fit |-> FALSE, mode |-> "linear", lo |-> -3,  hi |-> 0,  raw |-> FALSE, slo |-> -3,  shi |-> 0, sfit |-> FALSE]]
 FullValue   == [planet_radius |-> 0, T |-> 3, H2O |-> -3, offset |-> -2]
 MCPSet == {MCParams[i] : i \in 1..Len(MCParams)}
 MCInitSetting == [p \in MCPSet |-> FullSetting[p]]
@@ -47,6 +47,29 @@ MCFactors    == {AllFactors[i] : i \in FactorSel}
 MCUserPriors == {AllPriors[i] : i \in PriorSel}
 MCK == {k - 3 : k \in KSel}
 
+\* ---- input files (Optimizer.tla: Routes).  One-parameter files: `p:fit` either way and at most one further key;
+\* two-parameter files switching one parameter on and another off (either order of the keys); files with every key;
+\* [Derive] files.  MCFilesFew: a handful for the exhaustive / coverage configs.
+Entry(p, x, m, cs, b, f, pr) == [p |-> p, fit |-> x, m |-> m, cs |-> cs, b |-> b, f |-> f, pr |-> pr]
+Plain(p, x) == Entry(p, x, "", {}, <<>>, <<>>, None)
+OneFile(e) == [fs |-> <<e>>, ds |-> <<>>]
+MCFilesOne == {OneFile(Plain(p, x)) : p \in MCCallParams, x \in BOOLEAN}
+         \cup {OneFile(Entry(p, x, mc[1], mc[2], <<>>, <<>>, None)) : p \in MCCallParams, x \in BOOLEAN, mc \in MCModeCalls}
+         \cup {OneFile(Entry(p, x, "", {}, b, <<>>, None)) : p \in MCCallParams, x \in BOOLEAN, b \in MCBoundPairs}
+         \cup {OneFile(Entry(p, x, "", {}, <<>>, f, None)) : p \in MCCallParams, x \in BOOLEAN, f \in MCFactors}
+         \cup {OneFile(Entry(p, x, "", {}, <<>>, <<>>, pr)) : p \in MCCallParams, x \in BOOLEAN, pr \in MCUserPriors}
+MCFilesTwo == {[fs |-> <<Plain(pq[1], x), Plain(pq[2], ~x)>>, ds |-> <<>>] :
+                  pq \in {r \in MCCallParams \X MCCallParams : r[1] # r[2]}, x \in BOOLEAN}
+MCFilesFull == {[fs |-> <<Entry(p, x, mc[1], mc[2], b, <<>>, pr)>>, ds |-> <<[d |-> MCDerived[1], on |-> x], [d |-> MCDerived[2], on |-> ~x]>>] :
+                   p \in MCCallParams, x \in BOOLEAN, mc \in MCModeCalls, b \in MCBoundPairs \cap {AllBounds[1], AllBounds[5]},
+                   pr \in MCUserPriors \cap {AllPriors[2]}}
+MCFilesDer == {[fs |-> <<>>, ds |-> <<[d |-> d, on |-> x]>>] : d \in {MCDerived[i] : i \in 1..Len(MCDerived)}, x \in BOOLEAN}
+MCFilesAll == MCFilesOne \cup MCFilesTwo \cup MCFilesFull \cup MCFilesDer
+MCNoFiles == {}
+MCFilesFew == {OneFile(Plain("planet_radius", FALSE)), OneFile(Plain("offset", TRUE)),
+               [fs |-> <<Plain("planet_radius", FALSE), Entry("offset", TRUE, "log", {1,2,3}, <<-6, -2>>, <<>>, None)>>,
+                ds |-> <<[d |-> "logg", on |-> TRUE]>>]}
+
 LevelBound == TLCGet("level") < MaxLevel
 \* every history of length MaxLevel - 1 (exhaustive export) or the end of a simulated behaviour
 Emit == (Export = "all" /\ Len(hist) = MaxLevel - 1) => PrintT(<<"BEH", ToJson([h |-> hist])>>)
@@ -56,7 +79,7 @@ HistBound == Len(hist) < MaxLevel
 \* and update_model with a vector one entry longer than the fitted set (refused; the history goes on)
 \* (once something is compiled: the refusal of any vector by an empty set-up is in the preset histories)
 ExWrong == Len(compiled) > 0 /\ \E k \in K : UpdateWrong([i \in 1..(Len(compiled) + 1) |-> k])
-ExNext == KnownCall \/ Unknown("enable_fit", "nope") \/ Unknown("disable_derived", "nope") \/ ExWrong
+ExNext == ApiCall \/ Unknown("enable_fit", "nope") \/ Unknown("disable_derived", "nope") \/ ExWrong
 ExSpec == Init /\ [][ExNext]_vars
 
 \* export of "preset" histories (binding C): any subset of the parameters is made the fitted set (only
@@ -95,9 +118,19 @@ OrderNext == CASE Len(hist) = 0 -> PresetCall
                [] OTHER         -> Compile
 OrderSpec == Init /\ [][OrderNext]_vars
 
+\* export of "route" histories (binding C): a fitted set is chosen and compiled (by compile_params or by a first fit),
+\* then ONE change of the settings by either route (any API call, or an input file), then the sampler is entered by
+\* fit() -- or, after a file, compile_params() is called: the set-up is that of the settings current at that moment
+RoutePresets == {{}, {"planet_radius", "H2O"}, {"T", "offset"}}
+RouteNext == CASE Len(hist) = 0 -> \E S \in RoutePresets : Preset(S)
+               [] Len(hist) = 1 -> Compile \/ Fit
+               [] Len(hist) = 2 -> SettingCall \/ PriorCall \/ DerivedCall \/ FileCall
+               [] OTHER         -> Fit \/ (hist[3].op = "file" /\ Compile)
+RouteSpec == Init /\ [][RouteNext]_vars
+
 \* simulation: choose the class of call first so that compile / update_model are not drowned
 \* by the many argument combinations of the setters
-Classes == {"setting", "setting2", "prior", "derived", "compile", "compile2", "update", "writeback", "unknown", "preset", "wrongupdate", "same"}
+Classes == {"setting", "setting2", "prior", "derived", "compile", "compile2", "update", "writeback", "unknown", "preset", "wrongupdate", "same", "fit", "file"}
 \* (the history is printed when the behaviour's last state is expanded: once per behaviour)
 SimNext == /\ (Export = "sim" /\ Len(hist) = MaxLevel - 1) => PrintT(<<"BEH", ToJson([h |-> hist])>>)
            /\ \E c \in {RandomElement(Classes)} :      \* (a bound variable: drawn once per step, not once per CASE arm)
@@ -106,6 +139,8 @@ SimNext == /\ (Export = "sim" /\ Len(hist) = MaxLevel - 1) => PrintT(<<"BEH", To
                [] c = "derived"   -> DerivedCall
                \* (settings for which compile_params is not defined: another setting call instead)
                [] c \in {"compile", "compile2"} -> IF CompileDefined THEN Compile ELSE SettingCall
+               [] c = "fit"       -> IF CompileDefined THEN Fit ELSE SettingCall
+               [] c = "file"      -> FileCall
                [] c = "update"    -> UpdateCall
                [] c = "same"      -> IF SameDefined THEN UpdateSame ELSE UpdateCall
                [] c = "writeback" -> WriteBack
